@@ -440,8 +440,10 @@ class C14(PropBase):
             "absent / wrong flags / truncated, own stack or null descriptor), thread names (duplicates, unreadable), exception record "
             "(thread absent / present / equal to the dump-writer thread, code, flags, 0..15 parameters, context), Breakpad info with every "
             "validity combination (also truncated / over-long streams), misc info flag combinations and stream lengths below / above the structure, Linux status stream as raw bytes (hostile texts), little- and big-endian dumps, regions in a MemoryList or a Memory64List, modules, overlapping unloaded modules, memory regions. "
-            "The harness synthesizes it with minidump-synth and runs process_minidump. Non-trivial = at least two threads and an exception "
-            "record or Breakpad info; distinct = distinct case lines")
+            "The harness synthesizes it with minidump-synth and runs process_minidump. H cases carry the dump as BYTES written by the plugin's own writer "
+            "(7 context layouts, either byte order, streams in any order, leading duplicate directory entries, unknown stream types, an optional stream whose "
+            "location runs past the file, a missing thread list / system info): the model side is C02's reader model composed with C14's, the implementation "
+            "side Minidump::read + process_minidump. Non-trivial = at least two threads and an exception record or Breakpad info; distinct = distinct case lines")
     trusted_base = [
         "Coq 8.16.1 kernel (vm_compute in the non-vacuity Examples and in the three closed membership facts windows_code gen_lk 0xC0000005/6/409)",
         "hand-written model C14/Model.v of processor.rs into_process_state / get_exception_details, minidump.rs get_crash_address / "
@@ -456,10 +458,17 @@ class C14(PropBase):
         "aborts on anything else); the model run uses them (gen_lk); the oracle reads the same files independently in props/c14.py",
         "translate/c14_names.py: value -> Debug name tables of the 40 small error-code enumerations; reason_string mirrors Display for CrashReason "
         "over them (compared for 29 of 33 variants incl. the EXC_RESOURCE / EXC_GUARD bit-field renderings; literal prefixes tied to the source by c14_display_prefix_is_source)",
+        "C02's reader model (C02/Model.v decode_dump, Gen/Layouts.v) and its theorem dump_roundtrip (C02/Proofs4.v), composed with C14's model in C14/Bytes.v; "
+        "the positions of ip / sp among the integers of 6 context structures (Bytes.ctx_regs; compared on every H case); the plugin's own dump writer (props/c14.py write_dump)",
+        "the names the two large Windows tables (winerror.h, ntstatus.h: ~5800 names, not translated into Coq) give the values a case consults are read from the "
+        "checkout's windows.rs by the plugin and handed to the model per case (NM section); reason_string_nm renders over them",
         "extraction ExtrOcamlBasic; ocaml/c14/main.ml; harness/src/bin/c14.rs (minidump-synth dump writer, test-assembler)",
     ]
     assumptions = [
-        "the text of WinError / WinErrorWithFacility / NTSTATUS / in-page reasons (the two ~2900-entry name tables) is not predicted by the model; the oracle recomputes it from the source's name tables",
+        "the text of WinError / WinErrorWithFacility / NTSTATUS / in-page reasons is rendered by the model over names handed over per case (read from the source's two ~2900-entry tables by the plugin, "
+        "as the oracle does independently); H cases (bytes only) do not compare the text of these four families",
+        "from the bytes of a dump the model does not read the memory regions (d_mems = [], no own stack): the stack-memory choice is stated and compared over the case description only; "
+        "CPU contexts from bytes: x86, amd64, arm, arm64, old arm64, mips (the byte-level theorems hold for every context reader)",
         "u8::is_ascii_whitespace and str::parse::<u32> (standard library) are modelled by hand (is_ws, parse_u32); non-UTF-8 bytes never form a digit",
         "the stack memory chosen for a walk is observed through the first scanned frame on x86, amd64, arm (not iOS), arm64 and old arm64 (64-bit CPUs: 8-byte aligned sp only; 32-bit: any alignment); on other CPUs the model's choice is not compared",
         "frames beyond frame 0 (the unwinder) belong to C03-C07; unloaded-module attribution is compared for frame 0",
@@ -480,7 +489,14 @@ class C14(PropBase):
                 "modules, never trapping (from C08). The model is compared with process_minidump on synthesized dumps (little- and big-endian, MemoryList or Memory64List, truncated Breakpad / misc "
                 "info streams, hostile status texts) in debug and release builds; an independent "
                 "oracle recomputes thread order, requesting thread, contexts, stack memory, crash address, crash reason (variant, payload, text where documented), "
-                "pid (own status parser), times, modules and offsets from the case.",
+                "pid (own status parser), times, modules and offsets from the case. "
+                "FROM THE BYTES (second pass): for every well-formed dump model of C02 (any subset of streams, any item counts, either byte order, leading directory entries) the dump record the "
+                "processor works on, computed from the serialized bytes through C02's reader model, is the record read off the model (c14_bytes_are_the_model, from c02 dump_roundtrip); hence, end to end "
+                "from the bytes and for every context reader: modules / unloaded modules / dump time / process id / create time are those of the streams (c14_bytes_streams), one call stack per "
+                "thread-list entry with the thread names stream's last name (c14_bytes_threads), the requesting thread is the last entry named by the exception stream else by the Breakpad info and "
+                "not the dump-writer thread, starting from the exception context (c14_bytes_requesting_thread; c14_file_requesting_thread for ANY file the reader accepts, unreadable optional streams "
+                "counting as absent), per-frame unloaded offsets (c14_bytes_unloaded_offsets); which streams are required / optional / defaulted is regenerated from MinidumpInfo::new "
+                "(c14_stream_policy_is_source). The text of all 33 reason variants is compared (c14_windows_reason_string).",
         "note": "Trusted: Coq kernel; the translator (parser + symbolic execution of a Rust subset) and the hand model it is proved equal to; C08 model; "
                 "standard-library behaviours is_ascii_whitespace / parse::<u32> modelled by hand; frames beyond frame 0 not modelled. No axioms.",
     }
